@@ -23,6 +23,7 @@ enum OpKind {
   OP_DROP_MOCK_REF,  // Mode T: drop this task's shared_ptr to a mock (last owner destroys)
   OP_BARRIER,        // Mode T: all tasks meet; task 0 of the barrier performs the nested ops alone
   OP_CO_CALL, OP_CO_RESUME, OP_CO_DESTROY,
+  OP_WIDE,           // C09: one call of a generated mock function of arity 0..15 with every passing mode
   OP_NOP,
   OP_KIND_COUNT
 };
@@ -33,7 +34,7 @@ inline const char* op_name(int k) {
     "expect", "release", "abandon", "call", "q_sat", "q_completed",
     "new_watched", "destroy_watched", "copy_watched", "movecons_watched", "assign_watched",
     "req_destruction", "release_mon", "push_tracer", "pop_tracer", "set_reporter", "mutate",
-    "drop_mock_ref", "barrier", "co_call", "co_resume", "co_destroy", "nop"};
+    "drop_mock_ref", "barrier", "co_call", "co_resume", "co_destroy", "wide", "nop"};
   return (k >= 0 && k < OP_KIND_COUNT) ? n[k] : "?";
 }
 inline int op_kind_from_name(const char* s) {
